@@ -17,10 +17,10 @@ PROPS = {
             'containment of mutator failures; interrupts; exit status; deep '
             'nesting native'),
     'C12': ('contracts.c12', 'exploration',
-            'unbounded: Node.__eq__ on two trees, __deepcopy__, dfs (incl. '
-            'max_depth), bfs, count_nodes, count_exprs, binary_search; '
+            'unbounded: Node.__eq__ on two trees, __deepcopy__, dfs / bfs (incl. '
+            'max_depth), count_nodes, count_exprs, binary_search; '
             'shape-bounded: __eq__/__hash__ on all shape pairs incl. '
-            'coercions; native: pickle, bfs max_depth, filter_nodes'),
+            'coercions; native: pickle, filter_nodes'),
     'C11': ('contracts.c11', 'exploration',
             'unbounded: substitute with structural keys against the '
             'reference substitution, introduce_variables on lists of any '
